@@ -896,3 +896,5 @@ META = {
     'not_decided': 'soundness of the keyboard-walk adjacency and multi-word training heuristics on arbitrary strings',
     'technique': 'index/slice domain (linear normal forms) tiling check + sibling-template comparison + taint-style index-space rule',
 }
+
+META['explanation'] += ' ' + "Further: memoised functions' results are never mutated in place; consumers of the final section list are read-only; sibling keyboard tables agree on the column of every shared key."
